@@ -241,7 +241,7 @@ func isMutexType(t types.Type) (rw bool, ok bool) {
 func extractAccesses(repo, root string) error {
 	x := &accExtractor{repo: repo, fset: token.NewFileSet(), tracked: map[*types.TypeName]string{}, atomicTy: map[string]bool{},
 		funcs: map[*types.Func]*funcNode{}, usedAnn: map[string]bool{}, nclosure: map[string]int{}}
-	ab, err := os.ReadFile(filepath.Join(root, "go", "extract", "access_annotations.json"))
+	ab, err := os.ReadFile(filepath.Join(root, "go", "extract", "accesses", "access_annotations.json"))
 	if err != nil {
 		return err
 	}
